@@ -1419,6 +1419,20 @@ theorem hotstart_DateGenerator_counterexample : ¬ HotStart (DateGenerator.model
   have k1 : (Num.ofInt 1 : ℝ) = 1 := by show ((1 : Int) : ℝ) = 1; norm_num
   rw [k, k1] at this
   norm_num at this
+/-! ## non-vacuity: concrete whole-period / truncated pairs of successful runs (the hypotheses of `Causal`) -/
+
+example : ∃ o o₁, (Muskingum.model (α := Float)).run [86400, 0.25, 86400] (catSeries [[1, 2], [0, 1]] [[5], [0]]) [0, 0, 0] = .ok o ∧
+    (Muskingum.model (α := Float)).run [86400, 0.25, 86400] [[1, 2], [0, 1]] [0, 0, 0] = .ok o₁ := ⟨_, _, rfl, rfl⟩
+example : ∃ o o₁, (Sum.model (α := Float)).run [] (catSeries [[1, 2], [0, 1]] [[5], [0]]) [] = .ok o ∧
+    (Sum.model (α := Float)).run [] [[1, 2], [0, 1]] [] = .ok o₁ := ⟨_, _, rfl, rfl⟩
+example : ∃ o o₁, (Sacramento.model (α := Float)).run [0.01, 0.1, 0.3, 50, 40, 130, 25, 60, 0.1, 1, 40, 0, 0, 0.5, 0, 0, 0, 1, 1, 0, 0, 0]
+      (catSeries [[2, 0], [0, 1]] [[3], [1]]) [0, 0, 0, 0, 0, 0] = .ok o ∧
+    (Sacramento.model (α := Float)).run [0.01, 0.1, 0.3, 50, 40, 130, 25, 60, 0.1, 1, 40, 0, 0, 0.5, 0, 0, 0, 1, 1, 0, 0, 0]
+      [[2, 0], [0, 1]] [0, 0, 0, 0, 0, 0] = .ok o₁ := ⟨_, _, rfl, rfl⟩
+/-- stateless kernels: the hypotheses of `HotStart` (two successful calls) -/
+example : ∃ o₁ o₂, (ComputeProportion.model (α := Float)).run [0] [[1, 2], [0, 1]] [] = .ok o₁ ∧
+    (ComputeProportion.model (α := Float)).run [0] [[5], [2]] o₁.states = .ok o₂ := ⟨_, _, rfl, rfl⟩
+
 /-! ## Summary over the catalogue -/
 
 /-- the 41 catalogue models that have a Go case generator and a Lean kernel model (checks/models.py `ALL_MODELS`, same order) -/
